@@ -222,8 +222,25 @@ def run(rep: C.Report) -> None:
     ]
     rep.trusted += ["CPython ast", "z3", "vf/astpaths.py encoder", "CrossHair 0.0.110"]
     rep.outside += ["exceptions escaping mid-expansion", "Lua-side manipulation of the stack"]
-    ob1 = rep.add(C.Ob("Ob1 expand_stack balance on every syntactic path", "E3 AST path encoder + z3", [], "all paths; no bound on input size; loops: per-iteration balance"))
-    ob2 = rep.add(C.Ob("Ob2 call_lua_sandbox restores the saved depth", "E3 AST path encoder + z3", [], "all paths of call_lua_sandbox incl. exception edges into except/finally"))
+    stack_balance(rep)
+    # E1 part
+    T = 40 if C.tier() == "quick" else 150
+    xh.check_harness(
+        rep,
+        os.path.join(C.VERIF, "harness", "C16_msgs.py"),
+        {
+            "^msg_": dict(name="Ob3 message records carry the documented keys/title/section/path", functions=["core.py:Wtp.error/warning/debug/note/wiki_notice"], bounds="symbolic msg,title<=4 chars, trace/sortid/section/subsection unbounded str, expand_stack <=3 strs"),
+            "^start_page": dict(name="Ob4 start_page empties the five lists and resets the path (havoc)", engine="E4 havoc via CrossHair", functions=["core.py:Wtp.start_page"], bounds="arbitrary prior lists (<=2 junk records), expand_stack <=3 strs or already [title], previous title arbitrary or equal, title 1..4 chars"),
+        },
+        timeout=T,
+    )
+
+
+def stack_balance(rep: C.Report, prefix: str = "") -> None:
+    """Ob1/Ob2: expand_stack balance on every syntactic path (also used by C05: a path that pops more than it pushed
+    makes a later pop raise IndexError out of expand())."""
+    ob1 = rep.add(C.Ob(prefix + "Ob1 expand_stack balance on every syntactic path", "E3 AST path encoder + z3", [], "all paths; no bound on input size; loops: per-iteration balance"))
+    ob2 = rep.add(C.Ob(prefix + "Ob2 call_lua_sandbox restores the saved depth", "E3 AST path encoder + z3", [], "all paths of call_lua_sandbox incl. exception edges into except/finally"))
     t0 = time.time()
     unbalanced = []
     for fname in FILES:
@@ -303,17 +320,6 @@ def run(rep: C.Report) -> None:
         else:
             ob.verdict = C.DISCHARGED
     ob1.cpu_s = time.time() - t0
-    # E1 part
-    T = 40 if C.tier() == "quick" else 150
-    xh.check_harness(
-        rep,
-        os.path.join(C.VERIF, "harness", "C16_msgs.py"),
-        {
-            "^msg_": dict(name="Ob3 message records carry the documented keys/title/section/path", functions=["core.py:Wtp.error/warning/debug/note/wiki_notice"], bounds="symbolic msg,title<=4 chars, trace/sortid/section/subsection unbounded str, expand_stack <=3 strs"),
-            "^start_page": dict(name="Ob4 start_page empties the five lists and resets the path (havoc)", engine="E4 havoc via CrossHair", functions=["core.py:Wtp.start_page"], bounds="arbitrary prior lists (<=2 junk records), expand_stack <=3 strs, title 1..4 chars"),
-        },
-        timeout=T,
-    )
 
 
 def replay(r: dict) -> int:
